@@ -7,15 +7,23 @@ From SG Require Import Base.Prelude Base.GoInt Base.GoFloat Model.WarmUp.
 
 (* ---------- float model ---------- *)
 
-Lemma allowed_full c tokens : 0 <= tokens < w_warning c -> allowed_of c tokens = w_thr c.
+#[local] Transparent two63.
+
+Lemma wi_id c : 0 <= w_warning c < two63 -> wi c = w_warning c.
+Proof. intros H. unfold wi. apply i64_id. unfold in_i64. lia. Qed.
+
+Lemma mi_id c : 0 <= w_max c < two63 -> mi c = w_max c.
+Proof. intros H. unfold mi. apply i64_id. unfold in_i64. lia. Qed.
+
+Lemma allowed_full c tokens : w_warning c < two63 -> 0 <= tokens < w_warning c -> allowed_of c tokens = w_thr c.
 Proof.
-  intros H. unfold allowed_of.
+  intros Hr H. unfold allowed_of. rewrite wi_id by lia.
   destruct (tokens <? 0) eqn:E; [lia|].
   destruct (tokens >=? w_warning c) eqn:E2; [lia|reflexivity].
 Qed.
 
-Lemma cool_down_le_max c st cur q : cool_down c st cur q <= w_max c.
-Proof. unfold cool_down. match goal with |- (if ?a <=? ?b then _ else _) <= _ => destruct (a <=? b) eqn:E end; lia. Qed.
+Lemma cool_down_le_max c st cur q : 0 <= w_max c < two63 -> cool_down c st cur q <= w_max c.
+Proof. intros Hr. unfold cool_down. rewrite (mi_id c Hr). match goal with |- (if ?a <=? ?b then _ else _) <= _ => destruct (a <=? b) eqn:E end; lia. Qed.
 
 Lemma sync_stored_nonneg c st now q : 0 <= stored st -> 0 <= stored (sync_token c st now q).
 Proof.
@@ -41,7 +49,7 @@ Proof.
   intros Hs Hm Hw Hl Hn Hq. unfold sync_token.
   destruct (now - now mod 1000 <=? last_filled st) eqn:E; [lia|]. cbn [stored].
   assert (Hcd : cool_down c st (now - now mod 1000) q = stored st).
-  { unfold cool_down. destruct (stored st <? w_warning c) eqn:E1; [lia|].
+  { unfold cool_down. rewrite wi_id, mi_id by (unfold two63 in *; lia). destruct (stored st <? w_warning c) eqn:E1; [lia|].
     unfold no_refill in Hn. rewrite Hn. destruct (stored st <=? w_max c) eqn:E3; lia. }
   rewrite Hcd. unfold consumed in *.
   assert (Hi : i64 (stored st + go_i64_of_f (- q)%float) = stored st + go_i64_of_f (- q)%float).
@@ -77,7 +85,7 @@ Proof.
     pose proof (sync_drain c st now q Hs Hm ltac:(lia) Hl Hn ltac:(lia)) as Hd.
     destruct (Z_lt_le_dec (stored (sync_token c st now q)) (w_warning c)) as [Hlt|Hge].
     + exists 1%nat. cbn [firstn sync_all length]. split; [lia|]. split; [exact Hlt|].
-      apply allowed_full. lia.
+      apply allowed_full; unfold two63 in *; lia.
     + assert (Hs' : w_warning c <= stored (sync_token c st now q) <= w_max c) by lia.
       cbn [length] in Hlen.
       destruct (IH (sync_token c st now q) Hw Hs' Hm Hr ltac:(lia)) as (k & Hk & Hlt & Ha).
@@ -191,22 +199,28 @@ Lemma no_cold_phase :
   (1 <=? a)%float = true /\ (a <=? 0.5)%float = false.
 Proof. vm_compute. repeat split; reflexivity. Qed.
 
-(* a NaN threshold passes IsValidRule; the allowed value is NaN and everything is admitted *)
-Lemma nan_threshold :
-  wvalid nan 10 3 = true /\
-  is_nan (snd (calc (mk_wcfg nan 10 3) winit t_start)) = true /\
-  admitted_count (wrun (mk_wcfg nan 10 3) winit (repeat (t_start, 1) 30)) = 30.
+(* a NaN threshold is not valid any more (/repo 1e1f6ae) ... *)
+Lemma nan_threshold_invalid period cf : wvalid nan period cf = false.
+Proof. reflexivity. Qed.
+
+(* ... +Inf still is.  Its effective threshold is finite all the same: warningToken = uint64(+Inf) = 2^63 is
+   negative as an int64, so the bucket is always "above the warning line", 1/(x*0 + 1/Inf) = +Inf and the
+   Nextafter step towards MaxFloat64 returns MaxFloat64: a configured "unlimited" *)
+Lemma inf_threshold :
+  wvalid infinity 10 3 = true /\
+  (snd (calc (mk_wcfg infinity 10 3) winit t_start) =? fmax)%float = true /\
+  admitted_count (wrun (mk_wcfg infinity 10 3) winit (repeat (t_start, 1) 30)) = 30.
 Proof. vm_compute. repeat split; reflexivity. Qed.
 
 (* the bucket never holds more than maxToken: the refill is capped and the consumption is not negative *)
 Lemma sync_stored_le_max c st now q :
-  0 <= w_max c -> stored st <= w_max c -> 0 <= consumed q ->
+  0 <= w_max c < two63 -> stored st <= w_max c -> 0 <= consumed q ->
   in_i64 (cool_down c st (now - now mod 1000) q - consumed q) ->
   stored (sync_token c st now q) <= w_max c.
 Proof.
   intros Hm Hs Hq Hi. unfold sync_token.
   destruct (now - now mod 1000 <=? last_filled st); [exact Hs|]. cbn [stored].
-  pose proof (cool_down_le_max c st (now - now mod 1000) q) as Hc. unfold consumed in *.
+  pose proof (cool_down_le_max c st (now - now mod 1000) q Hm) as Hc. unfold consumed in *.
   replace (cool_down c st (now - now mod 1000) q + go_i64_of_f (- q)%float)
     with (cool_down c st (now - now mod 1000) q - - go_i64_of_f (- q)%float) by lia.
   rewrite (i64_id _ Hi).
